@@ -110,6 +110,26 @@ def random_config(rng, max_w=16, max_h=8):
         ]
     else:
         cfg["extras"] = None
+    if rng.random() < 0.2:
+        # mixed-geometry sequence: further pictures coded with other transform
+        # parameters / slice counts / fragmentation (legal: they are per picture)
+        m_asym = rng.random() < 0.25
+        m_w = rng.randrange(7)
+        cfg["mix"] = {
+            "wavelet": m_w,
+            "wavelet_ho": rng.randrange(7) if m_asym else m_w,
+            "depth": rng.choice([0, 1, 2]) if m_asym else rng.choice([0, 1, 2, 3]),
+            "depth_ho": rng.choice([1, 2]) if m_asym else 0,
+            "sx": rng.choice([1, 2, 3]),
+            "sy": rng.choice([1, 2]),
+            "frag": rng.choice([0, 0, 1, 2]),
+            "qm": None,
+        }
+        need = (WaveletFilters(cfg["mix"]["wavelet"]), WaveletFilters(cfg["mix"]["wavelet_ho"]), cfg["mix"]["depth"], cfg["mix"]["depth_ho"]) not in QUANTISATION_MATRICES
+        if need:
+            cfg["mix"]["qm"] = [rng.choice([0, 1, 2, 3]) for _ in range(qm_length(cfg["mix"]["depth"], cfg["mix"]["depth_ho"]))]
+    else:
+        cfg["mix"] = None
     if pcm == 1:
         # whole number of frames; first field of a frame has an even number
         cfg["npics"] = 2 * rng.choice([1, 1, 2])
@@ -228,8 +248,31 @@ class WorkloadError(Exception):
 def encode_sequences(cfg):
     cf = build_codec_features(cfg)
     seqs = []
+    mix = cfg.get("mix")
+    cf2 = None
+    if mix:
+        c2 = dict(cfg)
+        c2.update(mix)
+        if not cfg["lossless"]:
+            # keep the budget generous enough for the other slice count
+            c2["picture_bytes"] = max(cfg["picture_bytes"], 4 * mix["sx"] * mix["sy"] + cfg["picture_bytes"])
+        cf2 = build_codec_features(c2)
     for s in range(cfg.get("nseq", 1)):
-        seq = make_sequence(cf, make_pictures(cfg, s))
+        pics = make_pictures(cfg, s)
+        if cf2 is not None and len(pics) >= 2 and cfg.get("first_pic_num") is None:
+            # first half coded with the main parameters, second half with the
+            # other ones; picture numbers are left to autofill
+            k = len(pics) // 2
+            if cfg["pcm"] == 1:
+                k -= k % 2
+                k = k or 2
+            seq = make_sequence(cf, pics[:k])
+            other = make_sequence(cf2, pics[k:]) if pics[k:] else None
+            if other is not None:
+                extra = [du for du in other["data_units"] if "picture_parse" in du or "fragment_parse" in du]
+                seq["data_units"][-1:-1] = extra
+        else:
+            seq = make_sequence(cf, pics)
         for pos, kind, n, fill in cfg.get("extras") or []:
             units = seq["data_units"]
             at = max(1, min(pos, len(units) - 1))
@@ -288,7 +331,7 @@ def minimal_config():
     return OrderedDict(
         profile=3, level=0, pcm=0, w=8, h=4, cdf=0, luma_exc=255, luma_off=0, cd_exc=255, cd_off=128,
         wavelet=4, wavelet_ho=4, depth=1, depth_ho=0, sx=2, sy=1, frag=0, lossless=False, picture_bytes=24,
-        qm=None, npics=1, pic_kind="noise", pic_seed=1, first_pic_num=None, nseq=1, extras=None,
+        qm=None, npics=1, pic_kind="noise", pic_seed=1, first_pic_num=None, nseq=1, extras=None, mix=None,
     )
 
 
@@ -321,3 +364,62 @@ class _LazyPool(object):
             cfg = draw_encodable_config(rng, **self.kw)
             self.pool[k] = cfg
         return cfg
+
+
+# --------------------------------------------------------------------------
+# Streams from the real decoder test-case generators (conformant variants:
+# padding units, slice padding bits, prefix bytes, size scaler, dangling
+# bounded-block values, absent next offsets, concatenated sequences ...)
+# --------------------------------------------------------------------------
+
+import os as _os  # noqa: E402
+
+from sim.core import VERIF as _VERIF  # noqa: E402
+
+CORPUS_CSV = _os.path.join(_VERIF, "corpus", "codec_features.csv")
+CORPUS_PICTURES = [_os.path.join(_VERIF, "corpus", "pictures", n + ".raw") for n in ("square", "wide", "tall")]
+TC_CODECS = ["minimal", "ld", "lossless", "frag", "fields", "c420", "asym", "customqm"]
+_swapped = [False]
+_TC = {}
+
+
+def swap_natural_pictures():
+    """The real 'natural' pictures are 4K; swap in the test suite's small ones
+    (as tests/smaller_real_pictures.py does).  Recorded as a stub."""
+    import vc2_conformance_data
+
+    if not _swapped[0]:
+        del vc2_conformance_data.NATURAL_PICTURES_FILENAMES[:]
+        vc2_conformance_data.NATURAL_PICTURES_FILENAMES.extend(CORPUS_PICTURES)
+        _swapped[0] = True
+
+
+def testcase_streams(codec):
+    """[(test case name, bytes)] of every decoder test case the real generators
+    produce for one corpus codec column (deterministic; cached per process).
+    Streams above 3000 bytes are skipped (cost)."""
+    if codec not in _TC:
+        import logging
+
+        from vc2_conformance.codec_features import read_codec_features_csv
+        from vc2_conformance.test_cases import DECODER_TEST_CASE_GENERATOR_REGISTRY
+
+        swap_natural_pictures()
+        with open(CORPUS_CSV) as f:
+            cf = read_codec_features_csv(f)[codec]
+        out = []
+        lvl = logging.getLogger().level
+        logging.getLogger().setLevel(logging.ERROR)
+        try:
+            for tc in DECODER_TEST_CASE_GENERATOR_REGISTRY.generate_test_cases(cf):
+                g = SimFile()
+                try:
+                    autofill_and_serialise_stream(g, tc.value)
+                except Exception:  # noqa: BLE001 — the sender refused: precondition
+                    continue
+                if len(g.getvalue()) <= 3000:
+                    out.append((tc.name, g.getvalue()))
+        finally:
+            logging.getLogger().setLevel(lvl)
+        _TC[codec] = out
+    return _TC[codec]
